@@ -23,7 +23,8 @@ import (
 type OnReadPacket func(b []byte)
 
 type PubSession struct {
-	unpacker *PsUnpacker
+	unpackerMu sync.Mutex // tcp模式下，新连接到来时旧连接的读协程可能还未退出，unpacker不是并发安全的
+	unpacker   *PsUnpacker
 
 	streamName string
 
@@ -193,8 +194,7 @@ func (session *PubSession) runLoopUdp() error {
 		session.feedPacket(b)
 		return true
 	})
-	// 注意，unpacker只在读协程中使用，所以在读协程退出时销毁（而不是在Dispose的调用协程中）
-	session.unpacker.Dispose()
+	session.disposeUnpacker()
 	return err
 }
 
@@ -233,7 +233,7 @@ func (session *PubSession) runLoopTcp() error {
 
 				session.feedPacket(b)
 			}
-			session.unpacker.Dispose()
+			session.disposeUnpacker()
 		}()
 	}
 }
@@ -244,7 +244,16 @@ func (session *PubSession) feedPacket(b []byte) {
 	}
 
 	session.sessionStat.AddReadBytes(len(b))
+	session.unpackerMu.Lock()
 	session.unpacker.FeedRtpPacket(b)
+	session.unpackerMu.Unlock()
+}
+
+// disposeUnpacker 在读协程退出时调用。注意，不能在 Dispose 的调用协程中调用（调用方可能持有上层的锁，而unpacker的回调会获取上层的锁）
+func (session *PubSession) disposeUnpacker() {
+	session.unpackerMu.Lock()
+	session.unpacker.Dispose()
+	session.unpackerMu.Unlock()
 }
 
 func (session *PubSession) dispose(err error) error {
